@@ -7,11 +7,12 @@ Import ListNotations.
 Open Scope Z_scope.
 
 (* attach onto the existing index based row (reference_column None or NaN): members become the set union, every other
-   (group, type) is unaffected, element tables untouched *)
+   (group, type) is unaffected, element tables untouched, and every attached element exists *)
 Theorem C27_attach_is_union : forall s g et elm r0 s',
   rows_of s g et = [r0] -> rc_null (grc r0) = true -> attach s g et elm = Ok s' ->
   (exists r1, rows_of s' g et = [r1] /\ grc r1 = grc r0 /\ forall x, In x (gmem r1) <-> In x (gmem r0) \/ In x elm) /\
-  (forall g' et', (g', et') <> (g, et) -> rows_of s' g' et' = rows_of s g' et') /\ tab s' = tab s.
+  (forall g' et', (g', et') <> (g, et) -> rows_of s' g' et' = rows_of s g' et') /\ tab s' = tab s /\
+  (forall x, In x elm -> In x (ids s et)).
 Proof. exact attach_union. Qed.
 Print Assumptions C27_attach_is_union.
 
@@ -23,6 +24,14 @@ Print Assumptions C27_attach_old_nan_row_refuted.
 Example C27_attach_nan_row_now_union : exists s', attach s_w1_ 1 0%nat [2] = Ok s' /\ members_of s' 1 0%nat = Ok [7; 2].
 Proof. exact attach_nan_row_now_union. Qed.
 Print Assumptions C27_attach_nan_row_now_union.
+
+(* the rule before "fix: attach_to_group checks the existence of elements appended to an existing group row" accepted a
+   non-existing index as member of an existing row; the repaired rule raises like the new-row path (regression witness) *)
+Theorem C27_attach_unchecked_refuted :
+  exists s g et elm s', attach_unchecked s g et elm = Ok s' /\ members_of s' g et = Ok [4; 88] /\ ~ In 88 (ids s' et) /\
+                        attach s g et elm = Err "UserWarning".
+Proof. exact attach_unchecked_refuted. Qed.
+Print Assumptions C27_attach_unchecked_refuted.
 
 Theorem C27_attach_new_row : forall s g et elm s',
   rows_of s g et = [] -> attach s g et elm = Ok s' ->
